@@ -28,7 +28,10 @@
 (*   "fixed"  "code" with the handshake on the error path as well (notes/C19-fixes).           *)
 EXTENDS Integers, Sequences, FiniteSets, TLC
 
-CONSTANTS Mech, SessionKey
+CONSTANTS Mech, SessionKey,
+          HqBound    \* 0: housekeep_q is unbounded (asyncio.Queue(0), the code).  n > 0 (under "code"/"fixed" only):
+                     \* a queue of n places filled with put_nowait - what does not fit is dropped.  NOT what the
+                     \* statement allows; Kernel.tla uses it to show that StdoutInOrder is violated by that class.
 
 VARIABLES alive,    \* the session accepts requests
           ecount,      \* Kernel.execution_count
@@ -122,7 +125,10 @@ Run ==
   /\ LET c == cur.cell IN
      /\ IF c.runs THEN Emit(ExecMark(cur)) ELSE UNCHANGED log
      /\ acc' = IF c.runs /\ c.append THEN Append(acc, cur.id) ELSE acc
-     /\ hq'  = IF c.runs THEN hq \o [i \in 1..Len(c.prints) |-> [text |-> c.prints[i] \o "\n", origin |-> cur.hdr]] ELSE hq
+     /\ LET room == IF HqBound = 0 \/ Mech = "spec" THEN Len(c.prints)
+                     ELSE IF HqBound - Len(hq) < 0 THEN 0
+                     ELSE IF HqBound - Len(hq) < Len(c.prints) THEN HqBound - Len(hq) ELSE Len(c.prints)
+        IN hq' = IF c.runs THEN hq \o [i \in 1..room |-> [text |-> c.prints[i] \o "\n", origin |-> cur.hdr]] ELSE hq
      /\ todo' = CASE c.out = "error" -> {"reply", "error"} [] c.out = "none" -> {"reply"} [] OTHER -> {"result", "reply"}
   /\ pc' = "post"
   /\ UNCHANGED <<alive, ecount, cur, phdr, inbox, nreq>>
